@@ -5,7 +5,7 @@
 Require Import Arith List Bool ZArith String QArith Qcanon.
 From TK Require Import Mat_Sums Mat_Core Mat_Qc Equiv_Model Equiv_Spec Equiv_SpecExec
      Equiv_Proof_Perm Equiv_Proof_Rigid Equiv_Proof_Spectral Equiv_Proof_Affine Equiv_Proof_Knn
-     Equiv_Proof_Exec Knn_Spec Conn_Model Conn_Spec Conn_Proof_Main Statics.
+     Equiv_Proof_Exec Equiv_Proof_Align Knn_Spec Conn_Model Conn_Spec Conn_Proof_Main Statics.
 Import ListNotations.
 Local Open Scope nat_scope.
 
@@ -374,4 +374,31 @@ Proof.
   intros F Fo Ff n W' t X a b Hn.
   destruct (lltsa_f42_translate n W' t X a b Hn) as [H1 H2].
   exact (conj H1 (conj H2 (lltsa_rhs_f42_is_lltsa_rhs n X a b Hn))).
+Qed.
+
+Lemma main_perm_alignment_matrices : forall F (Fo : FieldOps F) (Ff : IsField F) n k p q nb
+    (w w' : nat -> nat -> F) (Gx Gx' : nat -> mat F) shift,
+  is_bij n p q -> rows_in_range n nb ->
+  (forall y a, y < n -> w' (p y) a = w y a) ->
+  (forall y a b, y < n -> Gx' (p y) a b = Gx y a b) ->
+  meq n n (klle_M n k (pnbrs p q nb) w' shift) (pact q (klle_M n k nb w shift)) /\
+  meq n n (kltsa_M n k (pnbrs p q nb) Gx' shift) (pact q (kltsa_M n k nb Gx shift)).
+Proof.
+  intros F Fo Ff n k p q nb w w' Gx Gx' shift Hb Hr Hw Hg.
+  exact (conj (klle_M_perm n k p q nb w w' shift Hb Hr Hw) (kltsa_M_perm n k p q nb Gx Gx' shift Hb Hr Hg)).
+Qed.
+
+Lemma main_alignment_row_col_sums : forall F (Fo : FieldOps F) (Ff : IsField F) n k nb
+    (w : nat -> nat -> F) (Gx : nat -> mat F) shift,
+  rows_in_range n nb ->
+  (forall x, x < n -> sumn k (fun a => w x a) = 1%F) ->
+  (forall x a, x < n -> a < k -> sumn k (fun b => Gx x a b) = 1%F) ->
+  zero_row_col_sums n (klle_M n k nb w 0%F) /\
+  (forall i, i < n -> sumn n (fun j => klle_M n k nb w shift i j) = shift) /\
+  (forall i, i < n -> sumn n (fun j => kltsa_M n k nb Gx shift i j) = shift).
+Proof.
+  intros F Fo Ff n k nb w Gx shift Hr Hw Hg. split; [|split].
+  - apply klle_M_zero_sums; assumption.
+  - intros i Hi. apply klle_M_row_sums; assumption.
+  - intros i Hi. apply kltsa_M_row_sums; assumption.
 Qed.
